@@ -180,6 +180,9 @@ pub fn dfs(
             return true;
         }
         for (si, sh) in alphabet.iter().enumerate() {
+            if crate::mc::past_soft_deadline() {
+                return false;
+            }
             if hist.is_empty() {
                 if let Some(f) = first_only {
                     if si != f {
